@@ -133,7 +133,7 @@ fn cmd_gen(a: &Args) -> Result<(), String> {
         hists: a.num("hists")?,
         len: a.num("len")?,
         profile: gen::Profile::parse(a.str("profile")?)?,
-        max_nodes: a.num_or("max-nodes", 20)?,
+        max_nodes: a.num_or("max-nodes", if a.str("profile") == Ok("big") { 90 } else { 20 })?,
         start: a.num_or("start", 0)?,
         prefix: match a.str("prefix") {
             Ok(p) => gen::read_prefix(&std::fs::read_to_string(p).map_err(|e| io_err(p, e))?),
@@ -173,12 +173,93 @@ fn cmd_selfcheck(a: &Args) -> Result<(), String> {
     selfcheck::run(a.num("seed")?, a.num("hists")?, a.num("len")?, out).map_err(|e| io_err("selfcheck", e))
 }
 
+/// C02 "every call returns": very tall and very wide trees on a thread with a small stack. Each phase is
+/// announced (and flushed) before it runs, so that an abort (stack overflow) names the call that did not return.
+fn cmd_deep(a: &Args) -> Result<(), String> {
+    use indextree::Arena;
+    let depth: usize = a.num_or("depth", 200_000)?;
+    let stack: usize = a.num_or("stack", 256 * 1024)?;
+    let h = std::thread::Builder::new()
+        .stack_size(stack)
+        .spawn(move || {
+            let say = |s: &str| {
+                println!("DEEP phase {}", s);
+                let _ = io::stdout().flush();
+            };
+            for shape in ["path", "comb", "wide"] {
+                say(&format!("{}: build", shape));
+                let mut ar: Arena<u64> = Arena::new();
+                let root = ar.new_node(0);
+                let mut cur = root;
+                let mut leaf = root;
+                for i in 1..depth as u64 {
+                    match shape {
+                        "path" => {
+                            cur = cur.append_value(i, &mut ar);
+                            leaf = cur;
+                        }
+                        "comb" => {
+                            // every level: a leaf and an inner node with a following sibling
+                            let inner = cur.append_value(i, &mut ar);
+                            if i % 2 == 0 {
+                                cur.append_value(i, &mut ar);
+                            }
+                            cur = inner;
+                            leaf = cur;
+                        }
+                        _ => {
+                            leaf = root.append_value(i, &mut ar);
+                        }
+                    }
+                }
+                say(&format!("{}: ancestors / predecessors from the deepest node", shape));
+                let na = leaf.ancestors(&ar).count();
+                let np = leaf.predecessors(&ar).count();
+                say(&format!("{}: descendants / traverse / reverse_traverse / children from the root", shape));
+                let nd = root.descendants(&ar).count();
+                let nt = root.traverse(&ar).count();
+                let nr = root.reverse_traverse(&ar).count();
+                let nc = root.children(&ar).count() + root.children(&ar).rev().count();
+                say(&format!("{}: clone and compare", shape));
+                let cl = ar.clone();
+                let eq = cl == ar;
+                say(&format!("{}: checked_append of the root under the deepest node (must be refused)", shape));
+                let refused = leaf.checked_append(root, &mut ar).is_err() || leaf == root;
+                say(&format!("{}: detach and re-append a middle node", shape));
+                let mid = ar.get_node_id_at(std::num::NonZeroUsize::new(ar.count() / 2 + 1).unwrap()).unwrap();
+                if mid != root {
+                    let p = ar[mid].parent().unwrap();
+                    mid.detach(&mut ar);
+                    p.append(mid, &mut ar);
+                }
+                say(&format!("{}: remove a middle node", shape));
+                if mid != root {
+                    mid.remove(&mut ar);
+                }
+                say(&format!("{}: remove_subtree of the root", shape));
+                root.remove_subtree(&mut ar);
+                let live = ar.iter().filter(|n| !n.is_removed()).count();
+                say(&format!("{}: drop", shape));
+                let total = cl.count();
+                drop(ar);
+                println!("DEEP result {} nodes={} anc={} pred={} desc={} trav={} rtrav={} ch2={} clone_eq={} refused={} live_after={}", shape, depth, na, np, nd, nt, nr, nc, eq, refused, live);
+                if nd != total || nt != 2 * total || nr != 2 * total || !eq || !refused || live != 0 {
+                    println!("DEEP BAD {}", shape);
+                }
+            }
+            println!("DEEP done");
+        })
+        .map_err(|e| e.to_string())?;
+    h.join().map_err(|_| "deep: the thread panicked".to_string())
+}
+
 fn main() {
     std::panic::set_hook(Box::new(|_| {}));
     let argv: Vec<String> = std::env::args().collect();
     let r = match argv.get(1).map(|s| s.as_str()) {
-        Some(c @ ("run" | "gen" | "stamps" | "selfcheck")) => Args::parse(&argv[2..]).and_then(|a| match c {
+        Some(c @ ("run" | "gen" | "stamps" | "selfcheck" | "deep")) => Args::parse(&argv[2..]).and_then(|a| match c {
             "run" => cmd_run(&a),
+            "deep" => cmd_deep(&a),
             "gen" => cmd_gen(&a),
             "stamps" => cmd_stamps(&a),
             _ => cmd_selfcheck(&a),
